@@ -14,6 +14,9 @@ from harness.drivers.c03 import cap_multipliers
 RES = "ACDEFGHIKLMNPQRSTVWY"
 
 
+
+RULE_EXTRA = ('editing a returned peptide changes nothing else.')
+
 def gen(rnd, pp, rule_text, conserve, allow_interval=True):
     n = rnd.randint(1, 40)
     A = anngen.annotation(rnd, n, n, alphabet=RES, kinds="massy2" if conserve else "all", intervals=False, density=0.2,
